@@ -400,6 +400,35 @@ example : dispatchStatus false ⟨"self".toList, [], 0, true, true⟩ ⟨0, [("s
 example : dispatchStatus true ⟨"self".toList, [], 0, true, true⟩ ⟨0, [("self".toList, false)]⟩ = 404 := by decide
 example : dispatchStatus true ⟨"self".toList, [], 0, true, true⟩ ⟨0, [("self".toList, true)]⟩ = 400 := by decide
 
+/-! ### Basic Authorization -/
+
+/-- whatever the header and whatever `checkpassword` says: 200, 400 or 401, as long as `b64decode` stays within
+    its contract -/
+theorem C07_basic (v : BasicView) (hb : ∀ e, v.b64 = some e → e ∈ contract .basicB64) :
+    basicAuth v = 200 ∨ basicAuth v = 400 ∨ basicAuth v = 401 := by
+  have hc : ∀ e ∈ contract .basicB64, catchHand .basicB64 e = 400 := by decide
+  unfold basicAuth
+  split
+  · right; right; rfl
+  · split
+    · right; left; decide
+    · split
+      · right; right; rfl
+      · split
+        · right; left; decide
+        · split
+          · rename_i e he
+            right; left; exact hc e (hb e he)
+          · split
+            · right; left; decide
+            · split
+              · left; rfl
+              · right; right; rfl
+
+example : basicAuth ⟨true, true, true, true, none, true, true⟩ = 200 := by decide
+example : basicAuth ⟨true, true, true, true, some .BinasciiError, true, true⟩ = 400 := by decide
+example : basicAuth ⟨true, true, false, true, none, true, true⟩ = 401 := by decide
+
 /-! ### trailer lines of a chunked request body -/
 
 theorem trailerLoop_raises (fx : Bool) (lines : List (List UInt8)) (hk : Bool) (hne : ∀ l ∈ lines, l ≠ [])
